@@ -405,10 +405,11 @@ func c13(o Opts) error {
 		return HOp{Kind: "load", Branch: b, Vals: []string{fmt.Sprintf("{k:%d,j:0,id:%d}", base%7, base), fmt.Sprintf("{k:%d,j:1,id:%d}", (base+3)%7, base+1)}}
 	}
 	vec := func(kind string, picks ...int) HOp { return HOp{Kind: kind, Branch: "main", Picks: picks} }
+	all := []int{0, 1, 2, 3, 4, 5, 6, 7, 8, 9, 10, 11, 12, 13, 14, 15} // indexes are taken modulo the number of objects: every object
 	for di, sc := range [][]HOp{
-		{ld("main", 10), ld("main", 20), vec("vecadd", 0, 1), ld("main", 30), vec("vecadd", 0, 1), ld("main", 40), vec("vecadd", 1), vec("vecadd", 2, 0)},
-		{ld("main", 10), vec("vecadd", 0), vec("vecadd", 0), {Kind: "branch", Branch: "main", Other: "b1", Commit: 2}, ld("b1", 50), {Kind: "vecadd", Branch: "b1", Picks: []int{0}}, {Kind: "vecadd", Branch: "b1", Picks: []int{1, 0}}, ld("main", 60)},
-		{ld("main", 10), ld("main", 20), vec("vecadd", 0, 1), vec("vecdel", 0), vec("vecadd", 0), vec("vecadd", 0), vec("vecdel", 1), vec("vecdel", 1), ld("main", 30)},
+		{ld("main", 10), ld("main", 20), vec("vecadd", all...), ld("main", 30), vec("vecadd", 0, 1), ld("main", 40), vec("vecadd", all...), vec("vecadd", 2, 0)},
+		{ld("main", 10), vec("vecadd", all...), vec("vecadd", all...), {Kind: "branch", Branch: "main", Other: "b1", Commit: 2}, ld("b1", 50), {Kind: "vecadd", Branch: "b1", Picks: all}, {Kind: "vecadd", Branch: "b1", Picks: []int{1, 0}}, ld("main", 60)},
+		{ld("main", 10), ld("main", 20), vec("vecadd", all...), vec("vecdel", 0), vec("vecadd", 0), vec("vecadd", 0), vec("vecdel", 1), vec("vecdel", 1), ld("main", 30), vec("vecadd", all...)},
 	} {
 		for _, desc := range []bool{false, true} {
 			if err := runHistory(res, PoolCfg{Key: "k", Desc: desc, Stride: 1, Thresh: 1}, sc); err != nil {
